@@ -74,12 +74,6 @@ AXIOMS = NP.AXIOMS
 GRID = "fdtdx.core.grid"
 
 
-def _task(body, **kw):
-    patch = P37._patch()
-    kw.setdefault("max_paths", 64)
-    return Task(body, modules=MODULES, extra_patch=patch, patch_names=P37.PATCH_NAMES, **kw)
-
-
 def _inputs(inp, shape_mode):
     if shape_mode == "sym":
         ns = tuple(sym_int(f"n{a}", lo=1) for a in range(3))
@@ -291,6 +285,8 @@ def _resolved_equal(shape):
                 prove_arrays_equal(f"{k}/post:cell_widths_are_s[axis{a}]", g.cell_widths(a), A.full((ns[a],), s, "real"))
                 c.prove(f"{k}/post:min_spacing_is_s[axis{a}]", g.min_spacings[a] == s)
             c.prove(f"{k}/post:is_uniform", g.is_uniform is True)
+            if g.is_uniform is not True:
+                continue
             c.prove(f"{k}/post:uniform_spacing_equal_R", g.uniform_spacing == ref.grid.uniform_spacing)
             c.prove(f"{k}/post:uniform_spacing_is_rounded_s", g.uniform_spacing == apply_uf("round_decimals", s, 14))
             c.prove(f"{k}/post:min_spacing_equal_R", g.min_spacing == ref.grid.min_spacing)
@@ -344,21 +340,27 @@ def _metric_scale_sanity(stencil):
     return body
 
 
+def _no_exception(c, exc):
+    """none of these sessions may raise on a feasible path (equally spaced input is always accepted)"""
+    c.prove(f"no_exception_on_equally_spaced_input[{type(exc).__name__}]", False)
+
+
 SHAPES_B = [(2, 2, 2), (2, 4, 2), (4, 2, 6), (1, 3, 2), (3, 1, 1), (5, 2, 3)]
+SHAPES_B_THOROUGH = [(6, 4, 8), (8, 2, 2), (2, 2, 10), (7, 1, 4), (1, 1, 1), (3, 3, 3)]
 
 
 def tasks(tier, seed):
-    out = {}
+    groups = {"A_edges_all_sizes": [], "B_resolved_grids_equal": [], "C_metric_scale_sanity": []}
     for which in ("U", "Ru", "Q"):
         b, h = _edges_all_sizes(which)
-        out[f"A_edges_all_sizes/{which}"] = _task(b, on_exception=h)
-    out["policy_level"] = _task(_policy_level)
-    out["B_frame_check"] = _task(_frame_check)
-    for shp in SHAPES_B:
-        out["B_resolved_equal/n" + "".join(map(str, shp))] = _task(_resolved_equal(shp))
+        groups["A_edges_all_sizes"].append((f"A/{which}", b, h))
+    groups["A_edges_all_sizes"].append(("policy_level", _policy_level, _no_exception))
+    groups["B_resolved_grids_equal"].append(("B/frame_check", _frame_check, _no_exception))
+    for shp in SHAPES_B + (SHAPES_B_THOROUGH if tier == "thorough" else []):
+        groups["B_resolved_grids_equal"].append(("B/n" + "".join(map(str, shp)), _resolved_equal(shp), _no_exception))
     for st in ("forward", "backward"):
-        out[f"C_metric_scale_sanity/{st}"] = _task(_metric_scale_sanity(st))
-    return out
+        groups["C_metric_scale_sanity"].append((f"C/{st}", _metric_scale_sanity(st), _no_exception))
+    return {k: P37.group_task(ms, modules=MODULES) for k, ms in groups.items()}
 
 
 def _real_case(shape, s, ctr, cf=0.99):
